@@ -175,7 +175,10 @@ func buildRevRepo(base string, ar *revRepo, rnd *rand.Rand, salt int) (*revDisk,
 		for nonce := 0; nonce < 5_000_000; nonce++ {
 			body := mk(nonce)
 			id, _ := objID(kind, body)
-			if id[:4] == target[:4] && id[4] != target[4] {
+			// prefer a twin whose 5th digit has all the bits of the target's (a sloppy comparison of the
+			// odd digit then cannot tell them apart); settle for any other digit after a while
+			super := hexVal(id[4])&hexVal(target[4]) == hexVal(target[4])
+			if id[:4] == target[:4] && id[4] != target[4] && (super || nonce > 600_000 || target[4] == 'f') {
 				if _, err := d.put(kind, body); err != nil {
 					return err
 				}
@@ -223,6 +226,34 @@ func buildRevRepo(base string, ar *revRepo, rnd *rand.Rand, salt int) (*revDisk,
 			s = id[:int(h.F[1]-'0')]
 		case "u7", "u5":
 			s = strings.ToUpper(id[:int(h.F[1]-'0')])
+		case "w7", "w5":
+			// the right even-length part followed by a wrong last digit that no object has there;
+			// digits whose bits are a subset of the real digit come first (0, then 8, 4, 2, 1, ...)
+			k := int(h.F[1]-'0') - 1
+			real := hexVal(id[k])
+			s = ""
+			for pass := 0; pass < 2 && s == ""; pass++ {
+				for _, c := range "084213569acdb7ef" {
+					v := hexVal(byte(c))
+					if v == real || (pass == 0 && v&real != v) {
+						continue
+					}
+					cand := id[:k] + string(c)
+					free := true
+					for oid := range d.objs {
+						if strings.HasPrefix(oid, cand) {
+							free = false
+						}
+					}
+					if free {
+						s = cand
+						break
+					}
+				}
+			}
+			if s == "" {
+				return nil, errCollision
+			}
 		default:
 			return nil, fmt.Errorf("unknown hex form %q", h.F)
 		}
@@ -253,6 +284,9 @@ func buildRevRepo(base string, ar *revRepo, rnd *rand.Rand, salt int) (*revDisk,
 		if hasTwin[h.O] && (h.F == "p4" || h.F == "p3") {
 			want = 2
 		}
+		if h.F == "w5" || h.F == "w7" {
+			want = 0
+		}
 		if count(d.hexsym[h.Sym]) != want {
 			return nil, errCollision
 		}
@@ -282,6 +316,13 @@ func buildRevRepo(base string, ar *revRepo, rnd *rand.Rand, salt int) (*revDisk,
 }
 
 var errCollision = fmt.Errorf("abbreviation collision")
+
+func hexVal(c byte) int {
+	if c >= 'a' {
+		return int(c-'a') + 10
+	}
+	return int(c - '0')
+}
 
 func (d *revDisk) renderName(n []string) string {
 	parts := make([]string, len(n))
